@@ -255,7 +255,7 @@ func Main(a int) int {
 	return f(a) + 10
 }
 `, "Main", []Arg{{T: "int", I: 1}}, "int", "i:10"},
-	{kResidue, "a panic raised in the middle of an expression (or inside a range loop / switch) and recovered leaves the operands (loop state) on the evaluation stack of the returning function; the same happens to the results already pushed by a return statement when a deferred call panics and an earlier defer recovers",
+	{kResidue, "a panic raised in the middle of an expression (or inside a range loop / switch) and recovered leaves the operands (loop state) on the evaluation stack of the returning function; the same happens to the results already pushed by a return statement when a deferred call panics and an earlier defer recovers, and to the values of a tuple assignment not stored yet when a store faults (s[5], x = two(): since the stores run from left to right the value meant for x is still there)",
 		`package foo
 
 func Main(a int) int {
@@ -849,6 +849,63 @@ func Main(a int) int {
 	return f() + a
 }
 `, Fn: "Main", Args: iarg(0), Res: "int", GoWant: "i:10"},
+	)
+}
+
+// What a review of those repairs found left over in turn. Three of the five have reproductions of more than one file
+// (a second file of the package, an imported package of the module, the interop module) and live in the replay files
+// imported-func-var-call, func-var-other-file and inline-arg-call-twice only.
+func init() {
+	iarg := func(v int64) []Arg { return []Arg{{T: "int", I: v}} }
+	findings = append(findings,
+		finding{Key: kFuncValueOrder, What: "mk().f(idx(5)), getf()(idx(5)), fs[idx(1)](idx(5)): the operand that gives the function called is compiled after the arguments, so the calls in it run after the calls in the arguments (Go: lexical order)",
+			Src: `package foo
+
+type T struct {
+	f func(int) int
+}
+
+var n int
+
+func next() int {
+	n++
+	return n
+}
+
+func add(x int) int {
+	return x + 100
+}
+
+func mk() T {
+	n *= 10
+	return T{f: add}
+}
+
+func Main(a int) int {
+	n = 1
+	r := mk().f(next())
+	return r*1000 + n + a
+}
+`, Fn: "Main", Args: iarg(0), Res: "int", GoWant: "i:111011"},
+		finding{Key: kTupleValueVar, What: "t, t.x = f() with t a VARIABLE of struct type (a, a[0] = f() with an array; fields of structures held by value in fields, elements of arrays of arrays): the field is a part of the variable, not of a value read in the first phase of the assignment, but the structure the variable held when the statement started is kept and written, so the field assigned after the whole variable is lost",
+			Src: `package foo
+
+type T struct {
+	x, y int
+}
+
+func pf() (T, int) {
+	return T{x: 1, y: 2}, 7
+}
+
+func Main(a int) int {
+	t := T{}
+	t, t.x = pf()
+	arr := [3]int{}
+	arr, arr[0] = [3]int{1, 2, 3}, 9
+	return t.x*1000 + t.y*100 + arr[0]*10 + arr[1] + a
+}
+`, Fn: "Main", Args: iarg(0), Res: "int", GoWant: "i:7292"},
 	)
 }
 
